@@ -233,6 +233,7 @@ def run(ctx, rep):
         _visit.deep(F, rep, "C07.visit-deep")
     capture_lists_are_complete(F, rep)
     modify_depends_on_the_declared_variable(F, rep)
+    fields_supply_no_variable(F, rep)
 
 
 
@@ -305,6 +306,29 @@ def modify_depends_on_the_declared_variable(F, rep, rule="C07.modify-target"):
     rep.ob(rule, "the target of `modify` carries the declared type of the captured variable (not the type of the stored value)", "ok" if ok else "violated",
            "" if ok else detail + ": `x: int? = nil` / `set = fn() { modify x = 5 }` leaks a dependency on an `int` x out of the owner, which then fails to load",
            pa.span, fn=pa.path, key=rule + "|declared-type")
+
+
+def fields_supply_no_variable(F, rep, rule="C07.field-supply"):
+    """Inside a method a bare name is a variable of the enclosing scopes (fields are reached through `self`; the type checker resolves
+    `count` to the module's `count`, or to nothing).  The dependency walk has to agree: a field must not cancel a method's dependency on a
+    variable that happens to have the field's name, or the method is made without capturing it and reads whatever variable of that name the
+    *callers* have.  MemberVariable supplies no identifier (it has no `supplies` of its own, or one that builds no Dependency)."""
+    DEP = "compiler::ast::Dependencies"
+    found = None
+    for i in F.crates["compiler"].impls:
+        if i.get("trait") == DEP and mir.strip_generics(i["self"]).endswith("member_variable::MemberVariable"):
+            found = i
+    if found is None:
+        raise AnchorMissing("impl Dependencies for MemberVariable")
+    sup = [x for x in found["items"] if x.endswith("::supplies")]
+    bad = False
+    for pth in sup:
+        g = F.fn(pth)
+        if g is None or any(c.callee().endswith("Dependency::new") or c.callee().endswith("Dependency::<'a>::new") for c in g.calls()):
+            bad = True
+    rep.ob(rule, "a class field supplies no variable to the methods of its class", "violated" if bad else "ok",
+           "MemberVariable::supplies builds a Dependency for the field's name: with `count = 100` at module level and a field `count`, a method that returns `count` "
+           "reads the `count` of whoever constructs the object" if bad else "", None, fn=(sup[0] if sup else found["self"]), key=rule)
 
 
 def fresh_cell_for_new_names_only(F, rep):
